@@ -9,6 +9,7 @@ import (
 	"fmt"
 	"os"
 	"runtime"
+	"runtime/debug"
 	"strings"
 
 	"github.com/gotd/td/internal/verif/kit"
@@ -113,10 +114,18 @@ func Explore[P any](c *kit.Ctx, sc Scenario[P], bound int, shard, shards int) St
 		return Stats{}
 	}
 	runtime.GOMAXPROCS(1) // one managed thread runs at a time; hand-offs are ~1.6x-4x faster on one P
+	// No garbage collection inside an execution: a GC empties sync.Pool instances of un-instrumented packages
+	// (bin.Pool) at an arbitrary point, which would make buffer reuse - and with it executions - irreproducible.
+	// Collections are run between executions instead.
+	debug.SetGCPercent(-1)
+	execs := 0
 	stepLimited := 0
 	st := vsched.Explore(vsched.ExploreOpts{
 		Bound: bound, FreeBound: sc.FreeBound, DefaultOnly: sc.DefaultOnly, Deadline: c.Deadline(), Shard: shard, Shards: shards, SplitAt: 3, Run: vsched.Opts{MaxSteps: sc.MaxSteps},
 		Exec: func(prefix []int) *vsched.Sched {
+			if execs++; execs%256 == 0 {
+				runtime.GC()
+			}
 			w := witness[P]{Scenario: sc.Name, Params: sc.Params, Schedule: prefix}
 			r, x, o := runOne(w, false)
 			if r.Class != "" {
